@@ -669,6 +669,7 @@ type verifC07Run struct {
 	envDirty     bool
 	feat         map[string]bool
 	forkEvery    int
+	kfEmitted    int
 }
 
 func (x *verifC07Run) scids() [3]lnwire.ShortChannelID {
@@ -1179,12 +1180,22 @@ func (x *verifC07Run) fork(why string) {
 				continue
 			}
 			if x.blockedByPurgedKeystone(o, env) {
-				x.violate("restart_image", "uncommitted-keystone-behind-purged-one-not-trimmed",
+				// The fork is thrown away, so the sequence goes on. The
+				// class is reported a few times per process only (the
+				// runtime keeps at most 50 violations per process and
+				// this one must not crowd out others); every occurrence
+				// is counted.
+				vc.Count("known_class_trim_hole_seen", 1)
+				if x.kfEmitted >= 3 {
+					return
+				}
+				x.kfEmitted++
+				vc.Violation("restart_image", "uncommitted-keystone-behind-purged-one-not-trimmed",
 					fmt.Sprintf("[%s] keystone %s (in %s) is still open after the restart although its "+
 						"outgoing HTLC id is >= the channel's NextLocalHtlcIndex; a lower keystone of "+
 						"the same outgoing channel belonged to a circuit of a fully closed incoming "+
 						"channel and was purged, after which the trim scan stops at the gap",
-						ctx, verifC07KeyStr(o), verifC07KeyStr(got.Incoming)))
+						ctx, verifC07KeyStr(o), verifC07KeyStr(got.Incoming)), x.witness())
 				return
 			}
 		}
